@@ -101,21 +101,26 @@ class OperandListMutated(Exception):
     pass
 
 
-def call_impl(c, call):
+def hand_over(name, run):
     """operand label lists are handed over as real list objects; equal operand lists are the SAME object
-    (callers do write `add_div_mod(c, xs, xs)`), and no generator may modify a list it was given"""
+    (callers do write `add_div_mod(c, xs, xs)`), and no generator may modify a list it was given.
+    run(L) performs the call, wrapping every operand list x as L(x)"""
     handed = {}
 
     def L(x):
-        key = tuple(x)
+        key = tuple(tuple(e) if isinstance(e, list) else e for e in x)
         if key not in handed:
-            handed[key] = list(x)
+            handed[key] = [tuple(e) if isinstance(e, list) else e for e in x]
         return handed[key]
-    res = _call_impl(c, call, L)
+    res = run(L)
     for key, obj in handed.items():
         if tuple(obj) != key:
-            raise OperandListMutated(f'{call[0]} modified an operand list it was given: {list(key)} became {obj}')
+            raise OperandListMutated(f'{name} modified an operand list it was given: {list(key)} became {obj}')
     return res
+
+
+def call_impl(c, call):
+    return hand_over(call[0], lambda L: _call_impl(c, call, L))
 
 
 def run_impl(case):
